@@ -482,10 +482,16 @@ class Padding(WidgetDecoration[WrappedWidget], typing.Generic[WrappedWidget]):
             if col < left or col >= maxcol - right:
                 return False
             maxvals = (maxcol - left - right,) + size[1:]
-        elif self._width_type == WHSettings.GIVEN:
-            maxvals = (self._width_amount,)
         else:
-            maxvals = ()
+            if self._width_type == WHSettings.GIVEN:
+                maxvals = (self._width_amount,)
+                width = self._width_amount
+            else:
+                maxvals = ()
+                width = self._original_widget.pack((), focus)[0]
+            # rendered fixed: the padding begins where the wrapped widget ends
+            if col < left or col >= left + width:
+                return False
 
         return self._original_widget.mouse_event(maxvals, event, button, col - left, row, focus)
 
